@@ -12,14 +12,14 @@ from concurrent.futures import ThreadPoolExecutor
 from ..common import Report, main_wrapper, scratch, eff_seed, run_tlc, MachineryError, tlc_failure_excerpt, ROOT, NCPU
 from .args import parse
 
-MODULES = ["harness.corpus.detlib", "harness.corpus.basic", "harness.corpus.configs", "harness.corpus.memory",
-           "harness.corpus.replace", "harness.corpus.nameclash"]
+MODULES = ["harness.corpus.detlib", "harness.corpus.nameclash", "harness.corpus.basic", "harness.corpus.configs",
+           "harness.corpus.memory", "harness.corpus.replace"]
 
 
 def one_run(cfg, steps):
     env = dict(os.environ)
     env.update({"PYTHONHASHSEED": str(cfg["hashseed"]), "DET_MODULES": cfg["module"], "DET_OFFSET": str(cfg["offset"]),
-                "DET_ORDER": cfg["order"], "DET_STEPS": str(steps), "PYTHONPATH": f"{os.environ.get('EXO_SRC', '/repo/src')}:{ROOT}"})
+                "DET_ORDER": cfg["order"], "DET_STEPS": str(steps), "DET_SWEEP": "1" if cfg.get("sweep") else "0", "PYTHONPATH": f"{os.environ.get('EXO_SRC', '/repo/src')}:{ROOT}"})
     p = subprocess.run(["/venv/bin/python", "-m", "harness.detrun"], cwd=ROOT, env=env, capture_output=True, text=True,
                        timeout=1500)
     obs = []
@@ -48,7 +48,7 @@ def main():
         variants += [{"hashseed": 3 + k, "offset": 13 * k, "order": ["fwd", "rev", "none"][k % 3]} for k in range(8)]
         variants += [{"hashseed": "random", "offset": 5, "order": "rev"}] * 4
     mods = MODULES[:4] if quick else MODULES
-    cfgs = [dict(v, module=m) for m in mods for v in variants]
+    cfgs = [dict(v, module=m, sweep=(k == 0)) for m in mods for k, v in enumerate(variants)]
     steps = 3 if quick else 6
     with ThreadPoolExecutor(NCPU) as ex:
         runs = list(ex.map(lambda c: one_run(c, steps), cfgs))
